@@ -54,6 +54,7 @@ def mk_env(E, name="env", discrete=True, alive=False):
         "$name": name, "$cur": E.val(f"{name}.cur0"), "$alive": E.bool(f"{name}.alive0") if alive is None else alive,
         "$nsteps": n0, "$nresets": E.int(f"{name}.resets_before", 0), "$ndone": E.int(f"{name}.done_before", 0),
         "$before": E.val(f"{name}.before0"), "$action": E.val(f"{name}.action0"), "$n0": n0,
+        "$eplen": E.int(f"{name}.eplen0", 0), "$epret": E.real(f"{name}.epret0"),
     }, name=name)
     E.register(o)
     return o
@@ -78,6 +79,10 @@ def _env(E, obj, name):
             f["$cur"] = o
             f["$alive"] = True
             f["$nresets"] = C.binop("+", k, 1)
+            E.log_write(obj.name, "$eplen")
+            E.log_write(obj.name, "$epret")
+            f["$eplen"] = 0
+            f["$epret"] = 0
             hook(E, "reset", env=obj, obs=o)
             return (o, {})
         return Builtin("Env.reset", reset)
@@ -97,6 +102,10 @@ def _env(E, obj, name):
             f["$alive"] = C.unop("not", done)
             f["$nsteps"] = C.binop("+", n, 1)
             f["$ndone"] = C.binop("+", f["$ndone"], C.ite(done, 1, 0))
+            E.log_write(obj.name, "$eplen")
+            E.log_write(obj.name, "$epret")
+            f["$eplen"] = C.binop("+", f["$eplen"], 1)
+            f["$epret"] = C.binop("+", f["$epret"], r)
             hook(E, "step.post", env=obj)
             info = InfoDict(obj)
             return (o2, r, term, trunc, info)
